@@ -262,6 +262,10 @@ func c18Run(rc *RunCtx) *Violation {
 			if resent {
 				t.resent++
 			}
+			if t.wire == 1 && resent {
+				fail("transmit.marked-first", fmt.Sprintf("%s transmitted the text of Send number %d (%s, %s) for the first time, yet marked as resent", p.Name, ti, short(t.text), t.how), map[string]string{"how": t.how})
+				return
+			}
 			switch {
 			case t.how == "refused":
 				fail("transmit.refused", fmt.Sprintf("%s transmitted a text that Send refused", p.Name), nil)
